@@ -34,11 +34,11 @@ FAMILIES = [
 ]
 
 
-def rename_to_family(rng: random.Random, gen, ent, info):
+def rename_to_family(rng: random.Random, gen, ent, info, index: int = 0):
     """Rename the exposed ports of the encapsulee to near-duplicate names: orderings that rely
     on a non-injective key (case-folded, stripped, by length ...) then fall back to set order."""
     comp = ent[1]
-    fam = rng.choice(FAMILIES)
+    fam = FAMILIES[index % len(FAMILIES)]
     for side, tag in (('provides', 'P'), ('requires', 'R')):
         ports = [p for p in comp.ports if p.direction == side and not p.injected]
         names = [n[0] + tag + n[1:] for n in fam]
@@ -51,15 +51,19 @@ def rename_to_family(rng: random.Random, gen, ent, info):
 def gen_cases(rng: random.Random, count: int):
     cases = []
     tries = 0
+    renamed = 0
     while len(cases) < count and tries < count * 200:
         tries += 1
         gen, ent, enc, info = cfggen.gen_shell_case(rng, hostile_text=True)
         if tries % 2 == 0 and not enc.get('multiclient') and \
                 max(len(info['provides']), len(info['requires'])) >= 2:
-            info = rename_to_family(rng, gen, ent, info)
+            info = rename_to_family(rng, gen, ent, info, index=renamed)
+            renamed += 1
             enc = dict(cfggen.rand_cfg(rng, gen, ent, multiclient=False, hostile_text=True),
-                       requires={'sts': 'REMAINING', 'mts': 'NONE'},
-                       provides={'sts': 'NONE', 'mts': 'ALL'})
+                       requires={'sts': sorted(info['requires']), 'mts': 'NONE'}
+                       if info['requires'] else {'sts': 'REMAINING', 'mts': 'NONE'},
+                       provides={'sts': 'NONE', 'mts': sorted(info['provides'])}
+                       if info['provides'] else {'sts': 'NONE', 'mts': 'ALL'})
         want = 2 if len(cases) < count * 0.8 else 0
         if explicit_sets(enc) < want:
             # force explicit name sets where the component has enough ports
